@@ -210,7 +210,11 @@ func init() {
 			specs := corpusFor(tier, func(t tplSpec) bool {
 				return !t.Tags["search"] && !strings.Contains(t.Name, "search") && (tier != "quick" || t.Tags["filter"] || t.Tags["update"] || t.Tags["doc"] || t.Tags["none"] || strings.Contains(t.Name, "/lit/str") || strings.Contains(t.Name, "concat"))
 			})
-			return templateJobs("H_c15", specs, map[string]string{"eager": "on"})
+			jobs := templateJobs("H_c15", specs, map[string]string{"eager": "on"})
+			for _, ps := range psCorpus(tier) {
+				jobs = append(jobs, templateJobs("H_c15", []tplSpec{ps.tplSpec}, map[string]string{"eager": "on", "ps": ps.Format})...)
+			}
+			return jobs
 		},
 		Functions: walkerFunctions, Witness: []string{"emitted"},
 		Bounds: map[string]any{
